@@ -132,6 +132,13 @@ def select_jobs(tables, quick):
                         mults = [None, ["i", 2]]
                     for mult in mults:
                         jobs.append(single(pdk, prim, dict(model=e[0][0], mult=mult, **sz)))
+                if kind in ("ress", "caps"):
+                    # the table is shared by the two- and the three-terminal primitive: request the model through the
+                    # primitive of the OTHER arity (2 -> 3 leaves `b` unconnected: recorded finding per (pdk, primitive);
+                    # 3 -> 2 keeps every device port connected)
+                    j = single(pdk, arity_prim(kind, 5 - len(e[1][1])), dict(model=e[0][0]))
+                    j["arity"] = "cross"
+                    jobs.append(j)
     for tp, vth in itertools.product(en["tp"], en["vth"]):
         for sz in SIZES_NUM:
             jobs.append(single("asap7", "Mos", dict(tp=tp, vth=vth, **sz)))
@@ -161,6 +168,8 @@ def corpus_jobs():
         single("sky130", "PhysicalResistor", dict(model="GEN_ND")),                 # 3-terminal device from a 2-terminal primitive
         single("sky130", "ThreeTerminalResistor", dict(model="PP_PREC_0p35", l=L1)),  # given length ignored
         single("asap7", "Mos", dict(tp="PMOS", vth="LOW", w=W1), via="name"),
+        single("sky130", "Diode", dict(model="PWND_5p5V", w=["l", "a"], l=["l", "b"])),   # Literal sizes: TypeError escapes (finding)
+        single("gf180", "Diode", dict(model="ND2PS_3p3V", w=["l", "a"], l=["l", "b"])),
         single("sky130", "Mos", dict(tp="PMOS", fam="CORE", vth="LOW"), copies=2, times=2, via="default"),
     ]
 
@@ -249,6 +258,8 @@ def selector(j):
     it = j["mods"][0]["insts"][0]
     p = it.get("params", {})
     sel = p.get("model") or "/".join(str(p.get(k)) for k in ("tp", "fam", "vth"))
+    if it.get("prim") == "Diode" and any((p.get(k) or [""])[0] == "l" for k in ("w", "l")):
+        sel += ":literal"                                  # Literal diode sizes are their own (recorded) failure class
     return f"{j['pdk']}:{it.get('prim')}:{sel}"
 
 
@@ -265,6 +276,9 @@ def report_designs(run, stream, bad, jobs, outs):
             cls = CODE_CLASS.get(code, str(code))
             j = jobs[i]
             gk = (cls, selector(j)) if is_single(j) else (cls, "design")
+            if cls == "ports" and j.get("arity") == "cross" and is_single(j):
+                # one group per (pdk, primitive): the exact member list is theorem C15_ports_covered
+                gk = ("arity", f"{j['pdk']}:{j['mods'][0]['insts'][0]['prim']}")
             groups.setdefault(gk, []).append(i)
     known = {k.get("key") for k in run.known if k.get("status") == "finding"}
     fresh = {}          # (class, pdk, primitive) -> number of not-known violations already reported
@@ -275,7 +289,7 @@ def report_designs(run, stream, bad, jobs, outs):
             j = jobs[i]
             key = f"C15:{cls}:{sel}" if sel != "design" else f"C15:{cls}:{canon_job(j)}"
             if key not in known:
-                fk = (cls, j["pdk"], sel.split(":")[1] if sel != "design" else "design")
+                fk = (cls, j["pdk"], sel.split(":")[1] if sel != "design" else "design", sel if cls == "arity" else "")
                 fresh[fk] = fresh.get(fk, 0) + 1
                 if fresh[fk] > 2:       # the two smallest new failing cases per (class, PDK, primitive); known findings all
                     continue
@@ -287,7 +301,9 @@ def report_designs(run, stream, bad, jobs, outs):
                                           reproducer="harness/impl/c15.py kind=design with this job (PYTHONPATH=<repo>)",
                                           failing_cases=len(idxs), failing_groups_in_stream=len(groups)))
     ties = sorted([i for i, c in bad if c == 2], key=lambda i: job_size(jobs[i]))
-    if ties and not groups:
+    # a model/implementation disagreement is reported unless the stream already reports a NEW spec violation
+    # (recorded findings do not hide it)
+    if ties and not fresh:
         i = ties[0]
         run.violation(f"C15:{stream}:tie", f"model and implementation differ on {canon_job(jobs[i])[:300]} (property holds on every explored input)",
                       dict(kind="correspondence-broken", stream=stream, case=jobs[i], impl=outs[i], disagreeing_cases=len(ties),
@@ -413,7 +429,7 @@ def run_cells(run, seed, quick):
         # always include the cells with bracketed port names, then a seeded sample
         special = [i for i in idx if "mux" in lst[i][1] and "b" in lst[i][1]][:10]
         idx = sorted(set(special + r.sample(idx, 150)))
-    outs = core.run_worker_sharded("c15", idx, common=dict(kind="cell"), nproc=8 if quick else 16)
+    outs = core.run_worker_sharded("c15", idx, common=dict(kind="cell"), nproc=min(core.NPROC, 8 if quick else 16))
 
     def ok_ascii(s):
         return all(32 <= ord(ch) < 127 for ch in s)
